@@ -6,9 +6,15 @@ def run(ctx):
     from checks import graph_runner
 
     cov = graph_runner.run_property(ctx, "C20")
+    from checks import c20_tags
+
+    cov.update(c20_tags.tags_leg(ctx))
     cov["rule"] = ("every generated program of size <= 4 (failures, duplicates, control forms, apply_tags) executed twice on one backend (second run = "
                    "cached replays) under the default schedule, programs of size <= 3 under all schedules within the deviation bound; over ALL rows: every "
                    "finished job has a call node whose hash equals hash(task, args, result, sorted recorded children); for jobs that really ran the recorded "
                    "children equal the finished child jobs' call nodes; (job, parent) rows and execution roots equal the jobs the scheduler created; "
-                   "every value row deserializes to a value whose hash is its key")
+                   "every value row deserializes to a value whose hash is its key. Tag placement: every subset of <= 3 (thorough 4) of 7 tag sources "
+                   "(task option tags= on a job run once / duplicated, apply_tags on a value, the current job, the execution, inside a child or inline) x "
+                   "main with/without shallow validity, run twice with run(tags=): the set of current tag rows equals exactly the expected "
+                   "(entity, key, value) set computed from the jobs the scheduler created")
     return {"coverage": cov, "assumptions": ["ErrorValue/Traceback values are not re-hashed (they reference live job objects)"]}
